@@ -97,7 +97,8 @@ def prot_predicate(line, fail_injected=False):
                 return "%s panicked" % t
             if res == "err" and not fail_injected and name in RESULT_OPS:
                 # the only legitimate error without fault injection: locking an inaccessible (PROT_NONE) region
-                if not (name == "lock" and idx < len(prev_regs) and prev_regs[idx].startswith("UNA")):
+                wrong_len = name in ("fsl", "fsro") and kind == "arr" and t.split(":")[1].split("@")[0] != str(n)
+                if not (name == "lock" and idx < len(prev_regs) and prev_regs[idx].startswith("UNA")) and not wrong_len:
                     return "%s failed without a refused lock" % t
             if rel != "-":
                 for r in rel.split("+"):
